@@ -431,7 +431,7 @@ func (g *G) expr(t *Ty, depth int) string {
 			}
 			g.meta.feat("sprint")
 			st := rx.Pick(g.rt, "sprintty", tInt, tF64, tBool, tString, tU8)
-			return fmt.Sprintf("fmt.Sprint(%s)", g.operand(st, depth-1))
+			return fmt.Sprintf("fmt.Sprint(%s)", g.nonLit(st, depth-1))
 		default:
 			if !g.avoid("sprintf") {
 				g.meta.feat("sprintf")
@@ -439,15 +439,15 @@ func (g *G) expr(t *Ty, depth int) string {
 					g.meta.feat("sprintf-verbs")
 					switch rx.Uniform(g.rt, 5, "verbform") {
 					case 0:
-						return fmt.Sprintf("fmt.Sprintf(\"%%d|%%03d|%%x\", %s, %s, %s)", g.operand(tInt, depth-1), g.operand(tU8, depth-1), g.operand(tU32, depth-1))
+						return fmt.Sprintf("fmt.Sprintf(\"%%d|%%03d|%%x\", %s, %s, %s)", g.nonLit(tInt, depth-1), g.nonLit(tU8, depth-1), g.nonLit(tU32, depth-1))
 					case 1:
-						return fmt.Sprintf("fmt.Sprintf(\"%%5.2f|%%g\", %s, %s)", g.operand(tF64, depth-1), g.operand(tF64, depth-1))
+						return fmt.Sprintf("fmt.Sprintf(\"%%5.2f|%%g\", %s, %s)", g.nonLit(tF64, depth-1), g.nonLit(tF64, depth-1))
 					case 2:
 						return fmt.Sprintf("fmt.Sprintf(\"%%q|%%5s|%%-4s|\", %s, %s, %s)", g.operand(tString, depth-1), g.operand(tString, 0), g.operand(tString, 0))
 					case 3:
-						return fmt.Sprintf("fmt.Sprintf(\"%%t %%v %%d\", %s, %s, %s)", g.boolOperand(depth-1), g.operand(tI8, depth-1), g.operand(tI8, depth-1))
+						return fmt.Sprintf("fmt.Sprintf(\"%%t %%v %%d\", %s, %s, %s)", g.boolOperand(depth-1), g.nonLit(tI8, depth-1), g.nonLit(tI8, depth-1))
 					default:
-						return fmt.Sprintf("fmt.Sprintf(\"%%c%%c|%%T\", %s, 'x', %s)", g.operand(tU8, 0), g.operand(tF64, 0))
+						return fmt.Sprintf("fmt.Sprintf(\"%%c%%c|%%T\", %s, 'x', %s)", g.nonLit(tU8, 0), g.nonLit(tF64, 0))
 					}
 				}
 				return fmt.Sprintf("fmt.Sprintf(\"%%v:%%s\", %s, %s)", g.operand(tInt, depth-1), g.operand(tString, depth-1))
@@ -537,9 +537,29 @@ func isConstExpr(e string) bool {
 }
 
 // operand: a sub-expression that can stand next to a binary operator without changing the grouping.
+// wrapped reports whether e is one parenthesised expression: "(" ... ")" with the first parenthesis closing at the end.
+func wrapped(e string) bool {
+	if !strings.HasPrefix(e, "(") || !strings.HasSuffix(e, ")") {
+		return false
+	}
+	depth := 0
+	for i, ch := range e {
+		switch ch {
+		case '(':
+			depth++
+		case ')':
+			depth--
+			if depth == 0 && i != len(e)-1 {
+				return false
+			}
+		}
+	}
+	return true
+}
+
 func (g *G) operand(t *Ty, depth int) string {
 	e := g.expr(t, depth)
-	if strings.ContainsAny(e, " ") && !strings.HasPrefix(e, "(") && !isCall(e) {
+	if strings.ContainsAny(e, " ") && !wrapped(e) && !isCall(e) {
 		return "(" + e + ")"
 	}
 	if strings.HasPrefix(e, "-") {
@@ -593,7 +613,7 @@ func (g *G) boolOperand(depth int) string {
 		}
 		return "(" + g.operand(tInt, 0) + " > 2)"
 	}
-	if strings.ContainsAny(e, " ") && !isCall(e) {
+	if strings.ContainsAny(e, " ") && !isCall(e) && !wrapped(e) {
 		return "(" + e + ")"
 	}
 	return e
@@ -1428,6 +1448,18 @@ func Program(rt *rapid.T, p Profile) (*oracle.Program, *Meta) {
 	for i := 0; i < nf; i++ {
 		g.genFunc(&top, i)
 	}
+	// a function with a function-local struct type, which may carry the name of a package-level struct type (it shadows
+	// that type inside this function only)
+	localFn := ""
+	if rx.Chance(rt, "localtype", 1, 3) {
+		tn := "Loc"
+		if len(g.structs) > 0 && rapid.Bool().Draw(rt, "shadowtype") {
+			tn = fmt.Sprintf("S%d", rx.Uniform(rt, len(g.structs), "shadowedtype"))
+		}
+		g.meta.feat("localtype")
+		localFn = "localType"
+		fmt.Fprintf(&top, "func localType(a int) int {\n\ttype %s struct {\n\t\tQ int\n\t\tR string\n\t}\n\tv := &%s{Q: a, R: \"loc\"}\n\tv.Q += len(v.R)\n\tw := &%s{}\n\tw.R = v.R + \"!\"\n\treturn v.Q*10 + len(w.R)\n}\n\n", tn, tn, tn)
+	}
 	// init and Main
 	var mainBody strings.Builder
 	g.sb = &mainBody
@@ -1436,7 +1468,13 @@ func Program(rt *rapid.T, p Profile) (*oracle.Program, *Meta) {
 	g.depth = 0
 	g.curFn = nil
 	g.line("fmt.Println(\"start\", CA, CB, CC, limit)")
+	if localFn != "" {
+		g.line("fmt.Println(\"local\", localType(bi))")
+	}
 	g.stmts(1 << 20)
+	if localFn != "" {
+		g.line("fmt.Println(\"local\", localType(3))")
+	}
 	for _, gv := range g.globals {
 		if !gv.ReadOnly {
 			g.show(gv)
